@@ -85,7 +85,7 @@ def run(ctx: Ctx):
         "modelled not verified: SQL GROUP BY / window / round() of the engines; DuckDB casts proportions, completeness and "
         "bin_high to 32-bit floats (tolerance 1e-6; cum_prop 1e-5); cases with a score within 1e-9 of a bin edge or a self "
         "score within 1e-4 of a rounding boundary are skipped and counted",
-        "completeness_data is DuckDB only (its parenthesised UNION ALL is a syntax error on SQLite: loud, outside C20)",
+        "completeness_data runs on DuckDB and SQLite (SQLite since /repo 452d5274)",
     ]
     ok = ctx.proof_stage("Properties/C20.v")
     if not ok:
